@@ -56,7 +56,8 @@ def show(f, rng, kw):
         if f['spell'] == 'joined': return f"{f['name']}{f['n']}"
         if f['spell'] == 'kw':
             # keyword names include ones that are tails of token names ('ue' = 'u' + 'e', 'hex' = 'h' + 'ex', ...): a token must never be re-read as name + keyword
-            pool = [x for x in ('e', 'ex', 'ie', 'in', 'it', 'its', 'ool', 'ytes', 'int', 'x', 'n', 'ad', 'loat', 'ct') if x not in kw]
+            # ... and names of parameters of the library's private helpers ('pos', 'dtypes', 'length', 'offset', 'token_list', 'keys': D61); the public parameter names 'fmt' and 'self' cannot be keywords in Python itself
+            pool = [x for x in ('e', 'ex', 'ie', 'in', 'it', 'its', 'pos', 'ool', 'ytes', 'int', 'x', 'n', 'ad', 'loat', 'ct', 'length', 'dtypes', 'offset', 'keys', 'token_list', 'values', 'kwargs', 'cls', 's') if x not in kw]
             k = pool[(len(kw) * 5 + f['n']) % len(pool)] if pool and (f['n'] + len(kw)) % 2 == 0 else f"len{len(kw)}"
             kw[k] = f['n']; return f"{f['name']}:{k}"
         return f"{f['name']}{sp()}:{sp()}{f['n']}"
